@@ -30,7 +30,8 @@ def BOUNDS(tier):
 
 def tasks(tier, seed):
     N = 20 if tier == 'quick' else 60
-    return [{'n': n} for n in range(1, N + 1)] + [{'n': n, 'via': 'sampler'} for n in (1, 2, 3, 5)]
+    return [{'n': n} for n in range(1, N + 1)] + [{'n': n, 'via': 'sampler'} for n in (1, 2, 3, 5)] + \
+        [{'n': n, 'via': 'int'} for n in range(1, (8 if tier == 'quick' else 20) + 1)]
 
 
 class NpStub:
@@ -45,8 +46,62 @@ class NpStub:
             t = t + x
         return S.SymReal(S._real(S.term_of(t))) if not isinstance(t, S.SymReal) else t
 
+    # numpy's dtype inference, as a contract: an array created from integer fill values has an integer dtype and
+    # TRUNCATES what is stored into it; any other fill value gives a float array
+    def full(self, shape, fill_value, dtype=None):
+        is_int = (isinstance(fill_value, int) and not isinstance(fill_value, bool)) or (
+            S.is_sym(fill_value) and S.term_of(fill_value).sort() == z3.IntSort())
+        if dtype is not None:
+            is_int = dtype in (int, 'int', 'int64')
+        return TypedArray([fill_value] * int(shape), is_int)
+
+    def zeros(self, shape, dtype=float):
+        return TypedArray([0 if dtype in (int, 'int', 'int64') else 0.0] * int(shape), dtype in (int, 'int', 'int64'))
+
+    def ones(self, shape, dtype=float):
+        return TypedArray([1 if dtype in (int, 'int', 'int64') else 1.0] * int(shape), dtype in (int, 'int', 'int64'))
+
     def __getattr__(self, name):
         return getattr(self._np, name)
+
+
+class TypedArray:
+    """one-dimensional array with numpy's store semantics for an integer dtype (truncation toward zero)"""
+
+    def __init__(self, items, is_int):
+        self.items = list(items)
+        self.is_int = is_int
+
+    def __len__(self):
+        return len(self.items)
+
+    def __iter__(self):
+        return iter(self.items)
+
+    def __getitem__(self, i):
+        return self.items[i]
+
+    def __setitem__(self, i, v):
+        if self.is_int:
+            if S.is_sym(v):
+                t = S.term_of(v)
+                if t.sort() != z3.IntSort():
+                    t = z3.If(t >= 0, z3.ToInt(t), -z3.ToInt(-t))
+                v = S.SymInt(t)
+            else:
+                v = int(v)
+        self.items[i] = v
+
+    def __truediv__(self, o):
+        return [x / o for x in self.items]
+
+    def __mul__(self, o):
+        return [x * o for x in self.items]
+
+    __rmul__ = __mul__
+
+    def tolist(self):
+        return list(self.items)
 
 
 def claims_for(weights, s_t, n):
@@ -93,6 +148,12 @@ def run_task(task):
                 finally:
                     g.random = rnd
                 outs.append((s1.t, rec.get('p')))
+                return outs
+            if task.get('via') == 'int':
+                # an integer skew (a caller passing 3 rather than 3.0) is a skew > 0 like any other
+                si = e.fresh_int('si')
+                e.assume(si >= 1)
+                outs.append((z3.ToReal(si.t), g.create_linear_distribution(n, si)))
                 return outs
             for k in range(2):
                 s = e.fresh_real('s')
@@ -182,7 +243,7 @@ def replay(cex):
     bad = False
     try:
         for s in d['skews']:
-            s = float(s)
+            s = int(s) if d.get('via') == 'int' else float(s)
             if d.get('via') == 'sampler':
                 rec = {}
                 orig = np.random.choice
